@@ -87,7 +87,7 @@ func C03(c *vlib.Ctx) {
 	c.Rule("many short concurrent histories (4-16 messages, 8-32 client goroutines, 20-60 phases, batch 1-5, TTL 50ms-2s of virtual time) over direct Store calls, the Pull HTTP handler and the Worker gRPC service on one store; every client call is recorded at the client boundary (call tick / return tick from one atomic counter) and each message's sub-history is checked with porcupine against a lease-register model in exclusivity mode; the clock is frozen during a phase and moved to lease/schedule boundaries (-1ns, 0, +1ns, +10ms) between phases; the run is built with -race. distinct_nontrivial = distinct (backend, transport, operation, outcome) classes; distinct per-message operation orders are reported as distinct_op_orders.")
 	c.Assume("schedules are sampled (8 histories in flight on 16 cores, Gosched and short sleeps between client operations), not enumerated")
 	c.Assume("exclusivity mode trusts settlement outcomes (those are C04's business) and alarms only when a dequeue returns a message the model says is leased-unexpired, not due, canceled, dead or settled, or with attempt != previous+1")
-	leaseHistories(c, "C03", leasecheck.ModeExclusivity, c.N(48, 2400), 0.15)
+	leaseHistories(c, "C03", leasecheck.ModeExclusivity, c.N(48, 900), 0.15)
 	c03Sequential(c)
 	c03Dispatcher(c)
 	c.CollectRaces()
@@ -101,7 +101,7 @@ func C03(c *vlib.Ctx) {
 func c03Sequential(c *vlib.Ctx) {
 	w := map[storecheck.Kind]int{storecheck.KEnqueue: 16, storecheck.KEnqueueBatch: 4, storecheck.KDequeue: 18, storecheck.KAck: 8, storecheck.KAckBatch: 4, storecheck.KNack: 4, storecheck.KExtend: 4,
 		storecheck.KDead: 4, storecheck.KDeleteDead: 4, storecheck.KCancel: 2, storecheck.KRequeue: 2, storecheck.KAdvance: 12, storecheck.KChurn: 1}
-	seqs := c.N(5, 600)
+	seqs := c.N(5, 150)
 	for _, be := range []string{"memory", "sqlite"} {
 		churn := 1050
 		if be == "sqlite" {
@@ -120,7 +120,7 @@ func c03Sequential(c *vlib.Ctx) {
 func C04(c *vlib.Ctx) {
 	c.Rule("same recorder and model as C03 in fencing mode with a stale-heavy workload: workers keep every lease id they ever saw and present them after expiry, re-lease, cancel, requeue, ack and dead-letter, in single and batch forms (duplicates inside a batch, blank and unknown ids) over direct Store calls, HTTP and gRPC; a listing of every message at each quiescent point is part of the history, so an effect of a stale call is observed even when its return code looks right. distinct_nontrivial = distinct (backend, transport, operation, outcome, duplicate-answer) classes.")
 	c.Assume("a 204/OK for a stale ack/nack through the Pull/Worker API is legal only if another call of the same class on the same lease id succeeded and was issued before this one returned (documented idempotent duplicate answer); never for extend, never on direct Store calls")
-	leaseHistories(c, "C04", leasecheck.ModeFencing, c.N(48, 2400), 0.6)
+	leaseHistories(c, "C04", leasecheck.ModeFencing, c.N(48, 900), 0.6)
 	c04Sequential(c)
 	c.CollectRaces()
 }
@@ -133,7 +133,7 @@ func C04(c *vlib.Ctx) {
 func c04Sequential(c *vlib.Ctx) {
 	w := map[storecheck.Kind]int{storecheck.KEnqueue: 8, storecheck.KDequeue: 14, storecheck.KAck: 5, storecheck.KNack: 6, storecheck.KExtend: 5, storecheck.KDead: 5,
 		storecheck.KAckBatch: 6, storecheck.KNackBatch: 6, storecheck.KDeadBatch: 6, storecheck.KCancel: 3, storecheck.KRequeue: 3, storecheck.KResume: 2, storecheck.KAdvance: 16}
-	seqs := c.N(10, 600)
+	seqs := c.N(10, 200)
 	for _, be := range []string{"memory", "sqlite"} {
 		for s := 0; s < seqs; s++ {
 			r := vlib.Derive(c.Seed, "C04seq", be, s)
